@@ -103,7 +103,7 @@ def run_shard(ctx):
     mon_cf.CONFIG.update(K=K)
     rng = ctx.rng
     classes = {}
-    for i in range(ctx.share({"quick": 1000, "thorough": 15000}[ctx.tier])):
+    for i in range(ctx.share({"quick": 14000, "thorough": 100000}[ctx.tier])):
         n = rng.choice([2, 3, 3, 4, 4] + ([5] if ctx.tier == "thorough" else []))
         gd = gg.random_admg(rng, n, p_bi=rng.choice([0.1, 0.2, 0.35]))
         doms = random_domains(rng, gd)
